@@ -231,15 +231,15 @@ Qed.
 
 Theorem jacobi_eq_basic_plus_whterm (acc0 : list RV3) bx by_ bz tp c i :
   length acc0 = n -> (1 <= i < n)%nat ->
-  nth_d 0 (Jacc c (grav_jacobi RNum G ps acc0)) i =
+  nth_d 0 (Jacc c (grav_jacobi RNum G n tp ps acc0)) i =
   nth_d 0 (Jacc c (grav_basic RNum G 0 bx by_ bz 0 0 0 1 n tp ps)) i
   + (if (1 <? i)%nat then proj c (vscale (wh_rj3iM G 0 (Mf (mass_ ps) (S i)) (JQ i)) (JQ i)) else 0).
 Proof.
   intros Hl Hi.
-  assert (LJ : length (grav_jacobi RNum G ps acc0) = n).
+  assert (LJ : length (grav_jacobi RNum G n tp ps acc0) = n).
   { unfold grav_jacobi. fold n.
-    destruct (outer_fold G ps n 0 acc0) as [acc' [st [E [L _]]]].
-    change (fold_left (fun s j => ostep G ps j s) (seq 0 n) (acc0, (vzero, 0)) = (acc', st)) in E.
+    destruct (outer_fold G n tp ps n 0 acc0) as [acc' [st [E [L _]]]].
+    change (fold_left (fun s j => ostep G n tp ps j s) (seq 0 n) (acc0, (vzero, 0)) = (acc', st)) in E.
     unfold for_range. replace (n - 0)%nat with n by lia.
     match goal with |- length (fst ?t) = _ => replace t with (acc', st) by (rewrite <- E; reflexivity) end.
     cbn [fst]. transitivity (length acc0); [exact L|exact Hl]. }
@@ -247,12 +247,10 @@ Proof.
   { unfold grav_basic, boxes. cbn [zr flat_map map app fold_left]. fold n. rewrite pair_loops_length. apply repeat_length. }
   rewrite !Jacc_closed by assumption.
   (* pointwise: a_JAC[k] = a_BASIC[k] + d_k *)
-  assert (P : forall k, (k < n)%nat -> nth_d vzero (grav_jacobi RNum G ps acc0) k =
+  assert (P : forall k, (k < n)%nat -> nth_d vzero (grav_jacobi RNum G n tp ps acc0) k =
              vadd (nth_d vzero (grav_basic RNum G 0 bx by_ bz 0 0 0 1 n tp ps) k) (dk G ps k)).
-  { intros k Hk. rewrite jacobi_decomp by (fold n; assumption).
-    rewrite (basic_eq_spec G 0 bx by_ bz 1 n tp ps) by (fold n; lia). rewrite acc_spec_noghost. fold n.
-    f_equal. unfold acc_spec0. fold n. apply VSum_ext. intros j Hj. apply in_seq in Hj.
-    replace (src n true 1 k j) with (src n tp 1 k j); [reflexivity|]. unfold src. destruct tp; lia. }
+  { intros k Hk. rewrite jacobi_decomp by (fold n; auto).
+    rewrite (basic_eq_spec G 0 bx by_ bz 1 n tp ps) by (fold n; lia). rewrite acc_spec_noghost. reflexivity. }
   rewrite P by lia.
   rewrite VSum_ext with (l := seq 0 i) (h := fun k => vadd (vscale (mass_ ps k) (nth_d vzero (grav_basic RNum G 0 bx by_ bz 0 0 0 1 n tp ps) k))
                                                               (vscale (mass_ ps k) (dk G ps k))).
